@@ -117,7 +117,9 @@ class CLikeCompilerArgs(arglist.CompilerArgs):
                         bad_idx_list += [i]
                 elif self._cached_realpath(each[8:]) in real_default_dirs:
                     bad_idx_list += [i]
-            for i in reversed(bad_idx_list):
+            # The operand of a bare -isystem can be flagged a second time by its own
+            # text (when it starts with -isystem as well): remove every index once.
+            for i in sorted(set(bad_idx_list), reverse=True):
                 new.pop(i)
         return self.compiler.unix_args_to_native(new._container)
 
